@@ -61,11 +61,13 @@ def cover(ctx, binp, validate_in):
         tail = sorted([o for o in ops if isread(o)], key=lambda o: (o["op"], o["x"], json.dumps(o["i"], sort_keys=True)))[:14]
         tail = tail + tail[:1]
         for h in hists:
-            seq = [ops[i - 1] for i in h] + tail
+            seq = [ops[i - 1] for i in h]
+            seq[-1] = dict(seq[-1], p=True)         # the statement the history was emitted for is judged by the full projection, whatever the reads after it do
+            seq = seq + tail
             # the capacity is the runtime's business: the harness logs the real one
             files[n % shards].write(json.dumps(seq) + "\n")
             n += 1
-            byop[seq[-1]["op"]] = byop.get(seq[-1]["op"], 0) + 1
+            byop[ops[h[-1] - 1]["op"]] = byop.get(ops[h[-1] - 1]["op"], 0) + 1
     for f in files:
         f.close()
     ctx.cov["transition_cover"] = {"histories": n, "by_last_statement": byop, "depth": depth}
